@@ -73,7 +73,7 @@ def run_task(task):
         for si in styles:
             io_order = IO_ORDERS[(idx + si) % 3]
             check_case(res, {'nl': nl.to_json(), 'style': si, 'io_order': io_order, 'mode': 'tt', 'fam': task[0]})
-            if nl.states:
+            if nl.states or (idx + si) % 4 == 0:      # circuits without state elements, too: the inputs are held, every cycle gives the same outputs
                 check_case(res, {'nl': nl.to_json(), 'style': si, 'io_order': io_order, 'mode': 'cycle', 'fam': task[0]})
         if task[0] in ('t2', 't4') and (idx % 29 == seed % 29 or tier == 'thorough' and idx % 5 == 0) or task[0] == 't4':
             check_case(res, {'nl': nl.to_json(), 'style': idx % len(STYLES), 'io_order': 'in_out', 'mode': 'batch', 'fam': task[0]})
